@@ -233,7 +233,11 @@ pub fn run_sched(
     own_clause: fn(&str) -> bool,
 ) {
     // budgets of 300 s and more are thorough-tier budgets: nominal, scaled globally
-    let budget = if budget >= Duration::from_secs(300) && std::env::var("RDBCHECK_BUDGET_S").is_err() { crate::report::scaled(budget) } else { budget };
+    let budget = match std::env::var("RDBCHECK_BUDGET_S").ok().and_then(|s| s.parse::<u64>().ok()) {
+        Some(s) => Duration::from_secs(s),
+        None if budget >= Duration::from_secs(300) => crate::report::scaled(budget),
+        None => budget,
+    };
     if let Some(req) = crate::report::replay_request("schedx") {
         let want = req["artefact"]["program"]["program"].as_str().unwrap_or("").to_string();
         if let Some(p) = progs.iter().find(|p| p.name == want) {
@@ -533,6 +537,18 @@ pub fn c09_programs() -> Vec<Arc<Prog>> {
         p("w3||w3", vec![], vec![vec![Put(0, 1, 8), Put(0, 2, 8), Put(0, 3, 8)], vec![Put(1, 4, 8), Put(1, 5, 8), Put(1, 6, 8)]]),
         p("flush||flush||w", vec![Put(0, 1, 8)], vec![vec![Flush], vec![Flush], vec![Put(1, 2, 8)]]),
         p("compact||compact", vec![Put(0, 1, 8), Flush, Put(1, 2, 8)], vec![vec![Compact(None, None)], vec![Compact(Some(0), Some(1))]]),
+        // two manual compactions whose rounds are real work (one key on levels 2, 1 and 0): one
+        // caller's request is registered and being worked on while the other caller finishes
+        p(
+            "compact||compact over three levels",
+            vec![Put(0, 1, 8), Flush, Put(0, 2, 8), Flush, Put(0, 3, 8), Flush, Put(1, 4, 8)],
+            vec![vec![Compact(None, None)], vec![Compact(None, None)]],
+        ),
+        p(
+            "compact||compact||w over three levels",
+            vec![Put(0, 1, 8), Flush, Put(0, 2, 8), Flush, Put(0, 3, 8), Flush, Put(1, 4, 8)],
+            vec![vec![Compact(None, None)], vec![Compact(Some(0), Some(0))], vec![Put(1, 5, 8)]],
+        ),
         p("reader||w+flush", vec![Put(0, 1, 8)], vec![vec![Get(0), IterScan], vec![Put(0, 2, 8), Flush]]),
         // an automatic (size-triggered) level-0 compaction racing with a manual compact_range:
         // the setup leaves one file in L2, one in L1, three in L0 and a full memtable; the put
